@@ -21,7 +21,8 @@ EXPLANATION = (
     'the LoopFlow cycle); R4 Flow.parent_names/names/names_at, abstractly interpreted on '
     'symbolic region graphs with 1..3 predecessors, return the union over all predecessors '
     'with own bindings shadowing inherited ones. Correctness of the position cut for every '
-    'layout and inter-scope reads are NOT decided.')
+    'layout and inter-scope reads are NOT decided.'
+    " Later addition to R1: supp's own names_at / lookup is interpreted on the region graph of every construct rebuilt from its Flow objects, in the state the extractor leaves them in (a definition the graph makes live must be found).")
 TECHNIQUE = ('region-template extraction by abstract interpretation + reaching-definition containment '
              'against reference CFG templates + abstract interpretation of the resolution functions')
 
